@@ -117,7 +117,8 @@ def evaluate(ctx, recs, outs, env, stats):
         stats[okey] = stats.get(okey, 0) + 1
         verdict = judge(o)
         midx = o["midx"]
-        kc = p["known"][midx] if (midx is not None and o["kind"] == "F") else (0 if o["read"] else direct_known(o))
+        # a failed read takes the class of the mutating step it precedes (the read_dir of find_files opens the declaration swap)
+        kc = p["known"][midx] if (midx is not None and o["kind"] in ("F", "R")) else (0 if o["read"] else direct_known(o))
         ctx.count((o["scn"], o["kind"], o["what"], tuple(o["hit"] or ()), o["cls"], o["rc"] == 0, o["set"]), nontrivial=True,
                   sample={"input": case_input(o), "rc": o["rc"], "class": o["cls"], "follow": [f[:2] for f in o["follow"]],
                           "model": (p[o["kind"]][midx] if midx is not None else None)})
